@@ -1,6 +1,1359 @@
-pub fn gen(_seed: u64, _thorough: bool) -> Vec<String> {
-    vec![]
+//! C03x: BC7 / BC6H block decoders, differential check against a spec oracle.
+//!
+//! Case lines:
+//!   `b7 <W> <hex>` / `b6u <W> <hex>` / `b6s <W> <hex>`   N = len/32 blocks, W blocks per row
+//!   `tbl <name> <i>`                                      table tie (library source text vs pinned spec tables)
+//!
+//! Result of a block line: `ok <h_0> ... <h_{N-1}>`, h_k = FNV-1a-32 over
+//!   [16*C U8 values] ++ [16*C U16 values, 2 bytes LE each] ++ [16*C f32 bit patterns, 4 bytes LE each]
+//! of block k (pixel-major, pixel j = 4*y+x inside the block), C = 4 (BC7, RGBA) or 3 (BC6H, RGB).
+//!
+//! The oracle in this file is written from the format specification (D3D11.3 functional spec
+//! 19.5.13 / 19.5.14, Khronos Data Format spec "BPTC"), not from the library.
+use crate::common::*;
+use dds::*;
+use std::sync::OnceLock;
+
+// ---------------------------------------------------------------------------------------------
+// Pinned spec tables (DirectXTex / Khronos form)
+// ---------------------------------------------------------------------------------------------
+
+/// 2-subset partitions (first 32 are shared with BC6H)
+const P2: [[u8; 16]; 64] = [
+    [0, 0, 1, 1, 0, 0, 1, 1, 0, 0, 1, 1, 0, 0, 1, 1],
+    [0, 0, 0, 1, 0, 0, 0, 1, 0, 0, 0, 1, 0, 0, 0, 1],
+    [0, 1, 1, 1, 0, 1, 1, 1, 0, 1, 1, 1, 0, 1, 1, 1],
+    [0, 0, 0, 1, 0, 0, 1, 1, 0, 0, 1, 1, 0, 1, 1, 1],
+    [0, 0, 0, 0, 0, 0, 0, 1, 0, 0, 0, 1, 0, 0, 1, 1],
+    [0, 0, 1, 1, 0, 1, 1, 1, 0, 1, 1, 1, 1, 1, 1, 1],
+    [0, 0, 0, 1, 0, 0, 1, 1, 0, 1, 1, 1, 1, 1, 1, 1],
+    [0, 0, 0, 0, 0, 0, 0, 1, 0, 0, 1, 1, 0, 1, 1, 1],
+    [0, 0, 0, 0, 0, 0, 0, 0, 0, 0, 0, 1, 0, 0, 1, 1],
+    [0, 0, 1, 1, 0, 1, 1, 1, 1, 1, 1, 1, 1, 1, 1, 1],
+    [0, 0, 0, 0, 0, 0, 0, 1, 0, 1, 1, 1, 1, 1, 1, 1],
+    [0, 0, 0, 0, 0, 0, 0, 0, 0, 0, 0, 1, 0, 1, 1, 1],
+    [0, 0, 0, 1, 0, 1, 1, 1, 1, 1, 1, 1, 1, 1, 1, 1],
+    [0, 0, 0, 0, 0, 0, 0, 0, 1, 1, 1, 1, 1, 1, 1, 1],
+    [0, 0, 0, 0, 1, 1, 1, 1, 1, 1, 1, 1, 1, 1, 1, 1],
+    [0, 0, 0, 0, 0, 0, 0, 0, 0, 0, 0, 0, 1, 1, 1, 1],
+    [0, 0, 0, 0, 1, 0, 0, 0, 1, 1, 1, 0, 1, 1, 1, 1],
+    [0, 1, 1, 1, 0, 0, 0, 1, 0, 0, 0, 0, 0, 0, 0, 0],
+    [0, 0, 0, 0, 0, 0, 0, 0, 1, 0, 0, 0, 1, 1, 1, 0],
+    [0, 1, 1, 1, 0, 0, 1, 1, 0, 0, 0, 1, 0, 0, 0, 0],
+    [0, 0, 1, 1, 0, 0, 0, 1, 0, 0, 0, 0, 0, 0, 0, 0],
+    [0, 0, 0, 0, 1, 0, 0, 0, 1, 1, 0, 0, 1, 1, 1, 0],
+    [0, 0, 0, 0, 0, 0, 0, 0, 1, 0, 0, 0, 1, 1, 0, 0],
+    [0, 1, 1, 1, 0, 0, 1, 1, 0, 0, 1, 1, 0, 0, 0, 1],
+    [0, 0, 1, 1, 0, 0, 0, 1, 0, 0, 0, 1, 0, 0, 0, 0],
+    [0, 0, 0, 0, 1, 0, 0, 0, 1, 0, 0, 0, 1, 1, 0, 0],
+    [0, 1, 1, 0, 0, 1, 1, 0, 0, 1, 1, 0, 0, 1, 1, 0],
+    [0, 0, 1, 1, 0, 1, 1, 0, 0, 1, 1, 0, 1, 1, 0, 0],
+    [0, 0, 0, 1, 0, 1, 1, 1, 1, 1, 1, 0, 1, 0, 0, 0],
+    [0, 0, 0, 0, 1, 1, 1, 1, 1, 1, 1, 1, 0, 0, 0, 0],
+    [0, 1, 1, 1, 0, 0, 0, 1, 1, 0, 0, 0, 1, 1, 1, 0],
+    [0, 0, 1, 1, 1, 0, 0, 1, 1, 0, 0, 1, 1, 1, 0, 0],
+    [0, 1, 0, 1, 0, 1, 0, 1, 0, 1, 0, 1, 0, 1, 0, 1],
+    [0, 0, 0, 0, 1, 1, 1, 1, 0, 0, 0, 0, 1, 1, 1, 1],
+    [0, 1, 0, 1, 1, 0, 1, 0, 0, 1, 0, 1, 1, 0, 1, 0],
+    [0, 0, 1, 1, 0, 0, 1, 1, 1, 1, 0, 0, 1, 1, 0, 0],
+    [0, 0, 1, 1, 1, 1, 0, 0, 0, 0, 1, 1, 1, 1, 0, 0],
+    [0, 1, 0, 1, 0, 1, 0, 1, 1, 0, 1, 0, 1, 0, 1, 0],
+    [0, 1, 1, 0, 1, 0, 0, 1, 0, 1, 1, 0, 1, 0, 0, 1],
+    [0, 1, 0, 1, 1, 0, 1, 0, 1, 0, 1, 0, 0, 1, 0, 1],
+    [0, 1, 1, 1, 0, 0, 1, 1, 1, 1, 0, 0, 1, 1, 1, 0],
+    [0, 0, 0, 1, 0, 0, 1, 1, 1, 1, 0, 0, 1, 0, 0, 0],
+    [0, 0, 1, 1, 0, 0, 1, 0, 0, 1, 0, 0, 1, 1, 0, 0],
+    [0, 0, 1, 1, 1, 0, 1, 1, 1, 1, 0, 1, 1, 1, 0, 0],
+    [0, 1, 1, 0, 1, 0, 0, 1, 1, 0, 0, 1, 0, 1, 1, 0],
+    [0, 0, 1, 1, 1, 1, 0, 0, 1, 1, 0, 0, 0, 0, 1, 1],
+    [0, 1, 1, 0, 0, 1, 1, 0, 1, 0, 0, 1, 1, 0, 0, 1],
+    [0, 0, 0, 0, 0, 1, 1, 0, 0, 1, 1, 0, 0, 0, 0, 0],
+    [0, 1, 0, 0, 1, 1, 1, 0, 0, 1, 0, 0, 0, 0, 0, 0],
+    [0, 0, 1, 0, 0, 1, 1, 1, 0, 0, 1, 0, 0, 0, 0, 0],
+    [0, 0, 0, 0, 0, 0, 1, 0, 0, 1, 1, 1, 0, 0, 1, 0],
+    [0, 0, 0, 0, 0, 1, 0, 0, 1, 1, 1, 0, 0, 1, 0, 0],
+    [0, 1, 1, 0, 1, 1, 0, 0, 1, 0, 0, 1, 0, 0, 1, 1],
+    [0, 0, 1, 1, 0, 1, 1, 0, 1, 1, 0, 0, 1, 0, 0, 1],
+    [0, 1, 1, 0, 0, 0, 1, 1, 1, 0, 0, 1, 1, 1, 0, 0],
+    [0, 0, 1, 1, 1, 0, 0, 1, 1, 1, 0, 0, 0, 1, 1, 0],
+    [0, 1, 1, 0, 1, 1, 0, 0, 1, 1, 0, 0, 1, 0, 0, 1],
+    [0, 1, 1, 0, 0, 0, 1, 1, 0, 0, 1, 1, 1, 0, 0, 1],
+    [0, 1, 1, 1, 1, 1, 1, 0, 1, 0, 0, 0, 0, 0, 0, 1],
+    [0, 0, 0, 1, 1, 0, 0, 0, 1, 1, 1, 0, 0, 1, 1, 1],
+    [0, 0, 0, 0, 1, 1, 1, 1, 0, 0, 1, 1, 0, 0, 1, 1],
+    [0, 0, 1, 1, 0, 0, 1, 1, 1, 1, 1, 1, 0, 0, 0, 0],
+    [0, 0, 1, 0, 0, 0, 1, 0, 1, 1, 1, 0, 1, 1, 1, 0],
+    [0, 1, 0, 0, 0, 1, 0, 0, 0, 1, 1, 1, 0, 1, 1, 1],
+];
+
+/// 3-subset partitions (BC7 modes 0 and 2)
+const P3: [[u8; 16]; 64] = [
+    [0, 0, 1, 1, 0, 0, 1, 1, 0, 2, 2, 1, 2, 2, 2, 2],
+    [0, 0, 0, 1, 0, 0, 1, 1, 2, 2, 1, 1, 2, 2, 2, 1],
+    [0, 0, 0, 0, 2, 0, 0, 1, 2, 2, 1, 1, 2, 2, 1, 1],
+    [0, 2, 2, 2, 0, 0, 2, 2, 0, 0, 1, 1, 0, 1, 1, 1],
+    [0, 0, 0, 0, 0, 0, 0, 0, 1, 1, 2, 2, 1, 1, 2, 2],
+    [0, 0, 1, 1, 0, 0, 1, 1, 0, 0, 2, 2, 0, 0, 2, 2],
+    [0, 0, 2, 2, 0, 0, 2, 2, 1, 1, 1, 1, 1, 1, 1, 1],
+    [0, 0, 1, 1, 0, 0, 1, 1, 2, 2, 1, 1, 2, 2, 1, 1],
+    [0, 0, 0, 0, 0, 0, 0, 0, 1, 1, 1, 1, 2, 2, 2, 2],
+    [0, 0, 0, 0, 1, 1, 1, 1, 1, 1, 1, 1, 2, 2, 2, 2],
+    [0, 0, 0, 0, 1, 1, 1, 1, 2, 2, 2, 2, 2, 2, 2, 2],
+    [0, 0, 1, 2, 0, 0, 1, 2, 0, 0, 1, 2, 0, 0, 1, 2],
+    [0, 1, 1, 2, 0, 1, 1, 2, 0, 1, 1, 2, 0, 1, 1, 2],
+    [0, 1, 2, 2, 0, 1, 2, 2, 0, 1, 2, 2, 0, 1, 2, 2],
+    [0, 0, 1, 1, 0, 1, 1, 2, 1, 1, 2, 2, 1, 2, 2, 2],
+    [0, 0, 1, 1, 2, 0, 0, 1, 2, 2, 0, 0, 2, 2, 2, 0],
+    [0, 0, 0, 1, 0, 0, 1, 1, 0, 1, 1, 2, 1, 1, 2, 2],
+    [0, 1, 1, 1, 0, 0, 1, 1, 2, 0, 0, 1, 2, 2, 0, 0],
+    [0, 0, 0, 0, 1, 1, 2, 2, 1, 1, 2, 2, 1, 1, 2, 2],
+    [0, 0, 2, 2, 0, 0, 2, 2, 0, 0, 2, 2, 1, 1, 1, 1],
+    [0, 1, 1, 1, 0, 1, 1, 1, 0, 2, 2, 2, 0, 2, 2, 2],
+    [0, 0, 0, 1, 0, 0, 0, 1, 2, 2, 2, 1, 2, 2, 2, 1],
+    [0, 0, 0, 0, 0, 0, 1, 1, 0, 1, 2, 2, 0, 1, 2, 2],
+    [0, 0, 0, 0, 1, 1, 0, 0, 2, 2, 1, 0, 2, 2, 1, 0],
+    [0, 1, 2, 2, 0, 1, 2, 2, 0, 0, 1, 1, 0, 0, 0, 0],
+    [0, 0, 1, 2, 0, 0, 1, 2, 1, 1, 2, 2, 2, 2, 2, 2],
+    [0, 1, 1, 0, 1, 2, 2, 1, 1, 2, 2, 1, 0, 1, 1, 0],
+    [0, 0, 0, 0, 0, 1, 1, 0, 1, 2, 2, 1, 1, 2, 2, 1],
+    [0, 0, 2, 2, 1, 1, 0, 2, 1, 1, 0, 2, 0, 0, 2, 2],
+    [0, 1, 1, 0, 0, 1, 1, 0, 2, 0, 0, 2, 2, 2, 2, 2],
+    [0, 0, 1, 1, 0, 1, 2, 2, 0, 1, 2, 2, 0, 0, 1, 1],
+    [0, 0, 0, 0, 2, 0, 0, 0, 2, 2, 1, 1, 2, 2, 2, 1],
+    [0, 0, 0, 0, 0, 0, 0, 2, 1, 1, 2, 2, 1, 2, 2, 2],
+    [0, 2, 2, 2, 0, 0, 2, 2, 0, 0, 1, 2, 0, 0, 1, 1],
+    [0, 0, 1, 1, 0, 0, 1, 2, 0, 0, 2, 2, 0, 2, 2, 2],
+    [0, 1, 2, 0, 0, 1, 2, 0, 0, 1, 2, 0, 0, 1, 2, 0],
+    [0, 0, 0, 0, 1, 1, 1, 1, 2, 2, 2, 2, 0, 0, 0, 0],
+    [0, 1, 2, 0, 1, 2, 0, 1, 2, 0, 1, 2, 0, 1, 2, 0],
+    [0, 1, 2, 0, 2, 0, 1, 2, 1, 2, 0, 1, 0, 1, 2, 0],
+    [0, 0, 1, 1, 2, 2, 0, 0, 1, 1, 2, 2, 0, 0, 1, 1],
+    [0, 0, 1, 1, 1, 1, 2, 2, 2, 2, 0, 0, 0, 0, 1, 1],
+    [0, 1, 0, 1, 0, 1, 0, 1, 2, 2, 2, 2, 2, 2, 2, 2],
+    [0, 0, 0, 0, 0, 0, 0, 0, 2, 1, 2, 1, 2, 1, 2, 1],
+    [0, 0, 2, 2, 1, 1, 2, 2, 0, 0, 2, 2, 1, 1, 2, 2],
+    [0, 0, 2, 2, 0, 0, 1, 1, 0, 0, 2, 2, 0, 0, 1, 1],
+    [0, 2, 2, 0, 1, 2, 2, 1, 0, 2, 2, 0, 1, 2, 2, 1],
+    [0, 1, 0, 1, 2, 2, 2, 2, 2, 2, 2, 2, 0, 1, 0, 1],
+    [0, 0, 0, 0, 2, 1, 2, 1, 2, 1, 2, 1, 2, 1, 2, 1],
+    [0, 1, 0, 1, 0, 1, 0, 1, 0, 1, 0, 1, 2, 2, 2, 2],
+    [0, 2, 2, 2, 0, 1, 1, 1, 0, 2, 2, 2, 0, 1, 1, 1],
+    [0, 0, 0, 2, 1, 1, 1, 2, 0, 0, 0, 2, 1, 1, 1, 2],
+    [0, 0, 0, 0, 2, 1, 1, 2, 2, 1, 1, 2, 2, 1, 1, 2],
+    [0, 2, 2, 2, 0, 1, 1, 1, 0, 1, 1, 1, 0, 2, 2, 2],
+    [0, 0, 0, 2, 1, 1, 1, 2, 1, 1, 1, 2, 0, 0, 0, 2],
+    [0, 1, 1, 0, 0, 1, 1, 0, 0, 1, 1, 0, 2, 2, 2, 2],
+    [0, 0, 0, 0, 0, 0, 0, 0, 2, 1, 1, 2, 2, 1, 1, 2],
+    [0, 1, 1, 0, 0, 1, 1, 0, 2, 2, 2, 2, 2, 2, 2, 2],
+    [0, 0, 2, 2, 0, 0, 1, 1, 0, 0, 1, 1, 0, 0, 2, 2],
+    [0, 0, 2, 2, 1, 1, 2, 2, 1, 1, 2, 2, 0, 0, 2, 2],
+    [0, 0, 0, 0, 0, 0, 0, 0, 0, 0, 0, 0, 2, 1, 1, 2],
+    [0, 0, 0, 2, 0, 0, 0, 1, 0, 0, 0, 2, 0, 0, 0, 1],
+    [0, 2, 2, 2, 1, 2, 2, 2, 0, 2, 2, 2, 1, 2, 2, 2],
+    [0, 1, 0, 1, 2, 2, 2, 2, 2, 2, 2, 2, 2, 2, 2, 2],
+    [0, 1, 1, 1, 2, 0, 1, 1, 2, 2, 0, 1, 2, 2, 2, 0],
+];
+
+/// anchor (fix-up) index of subset 1, 2-subset partitions
+const A2: [u8; 64] = [
+    15, 15, 15, 15, 15, 15, 15, 15, 15, 15, 15, 15, 15, 15, 15, 15, //
+    15, 2, 8, 2, 2, 8, 8, 15, 2, 8, 2, 2, 8, 8, 2, 2, //
+    15, 15, 6, 8, 2, 8, 15, 15, 2, 8, 2, 2, 2, 15, 15, 6, //
+    6, 2, 6, 8, 15, 15, 2, 2, 15, 15, 15, 15, 15, 2, 2, 15,
+];
+/// anchor index of subset 1, 3-subset partitions
+const A3A: [u8; 64] = [
+    3, 3, 15, 15, 8, 3, 15, 15, 8, 8, 6, 6, 6, 5, 3, 3, //
+    3, 3, 8, 15, 3, 3, 6, 10, 5, 8, 8, 6, 8, 5, 15, 15, //
+    8, 15, 3, 5, 6, 10, 8, 15, 15, 3, 15, 5, 15, 15, 15, 15, //
+    3, 15, 5, 5, 5, 8, 5, 10, 5, 10, 8, 13, 15, 12, 3, 3,
+];
+/// anchor index of subset 2, 3-subset partitions
+const A3B: [u8; 64] = [
+    15, 8, 8, 3, 15, 15, 3, 8, 15, 15, 15, 15, 15, 15, 15, 8, //
+    15, 8, 15, 3, 15, 8, 15, 8, 3, 15, 6, 10, 15, 15, 10, 8, //
+    15, 3, 15, 10, 10, 8, 9, 10, 6, 15, 8, 15, 3, 6, 6, 8, //
+    15, 3, 15, 15, 15, 15, 15, 15, 15, 15, 15, 15, 3, 15, 15, 8,
+];
+
+const W2: [u32; 4] = [0, 21, 43, 64];
+const W3: [u32; 8] = [0, 9, 18, 27, 37, 46, 55, 64];
+const W4: [u32; 16] = [0, 4, 9, 13, 17, 21, 26, 30, 34, 38, 43, 47, 51, 55, 60, 64];
+
+fn weights(bits: u32) -> &'static [u32] {
+    match bits {
+        2 => &W2,
+        3 => &W3,
+        _ => &W4,
+    }
 }
-pub fn run(_line: &str) -> Option<(String, Vec<String>)> {
+
+/// sequential LSB-first field reader over the 128-bit block
+struct Bits {
+    v: u128,
+    pos: u32,
+}
+impl Bits {
+    fn new(v: u128) -> Self {
+        Bits { v, pos: 0 }
+    }
+    fn get(&mut self, n: u32) -> u32 {
+        if n == 0 {
+            return 0;
+        }
+        let r = ((self.v >> self.pos) & ((1u128 << n) - 1)) as u32;
+        self.pos += n;
+        r
+    }
+}
+
+// ---------------------------------------------------------------------------------------------
+// BC7 spec oracle
+// ---------------------------------------------------------------------------------------------
+
+/// One row of the spec's BC7 mode table.
+#[derive(Clone, Copy)]
+struct M7 {
+    ns: u32,  // number of subsets
+    pb: u32,  // partition bits
+    rb: u32,  // rotation bits
+    isb: u32, // index selection bits
+    cb: u32,  // colour bits per channel
+    ab: u32,  // alpha bits
+    epb: u32, // per-endpoint p-bit
+    spb: u32, // shared (per-subset) p-bit
+    ib: u32,  // primary index bits
+    ib2: u32, // secondary index bits
+}
+const fn m7(ns: u32, pb: u32, rb: u32, isb: u32, cb: u32, ab: u32, epb: u32, spb: u32, ib: u32, ib2: u32) -> M7 {
+    M7 { ns, pb, rb, isb, cb, ab, epb, spb, ib, ib2 }
+}
+const MODES7: [M7; 8] = [
+    m7(3, 4, 0, 0, 4, 0, 1, 0, 3, 0),
+    m7(2, 6, 0, 0, 6, 0, 0, 1, 3, 0),
+    m7(3, 6, 0, 0, 5, 0, 0, 0, 2, 0),
+    m7(2, 6, 0, 0, 7, 0, 1, 0, 2, 0),
+    m7(1, 0, 2, 1, 5, 6, 0, 0, 2, 3),
+    m7(1, 0, 2, 0, 7, 8, 0, 0, 2, 2),
+    m7(1, 0, 0, 0, 7, 7, 1, 0, 4, 0),
+    m7(2, 6, 0, 0, 5, 5, 1, 0, 2, 0),
+];
+
+fn subset_of(ns: u32, part: usize, px: usize) -> usize {
+    match ns {
+        1 => 0,
+        2 => P2[part][px] as usize,
+        _ => P3[part][px] as usize,
+    }
+}
+fn is_anchor(ns: u32, part: usize, px: usize) -> bool {
+    if px == 0 {
+        return true;
+    }
+    match ns {
+        1 => false,
+        2 => A2[part] as usize == px,
+        _ => A3A[part] as usize == px || A3B[part] as usize == px,
+    }
+}
+
+/// left-align `v` (of `bits` bits) to 8 bits, replicating the top bits into the low bits
+fn expand8(v: u32, bits: u32) -> u32 {
+    let x = v << (8 - bits);
+    x | (x >> bits)
+}
+fn interp7(e0: u32, e1: u32, w: u32) -> u32 {
+    ((64 - w) * e0 + w * e1 + 32) >> 6
+}
+
+/// spec decode of one BC7 block: 16 pixels RGBA 8 bit
+fn bc7_spec(block: u128) -> [[u8; 4]; 16] {
+    let mut out = [[0u8; 4]; 16];
+    let mut mode = 0usize;
+    while mode < 8 && (block >> mode) & 1 == 0 {
+        mode += 1;
+    }
+    if mode >= 8 {
+        return out; // reserved: all zero incl. alpha
+    }
+    let m = MODES7[mode];
+    let mut b = Bits::new(block);
+    b.get(mode as u32 + 1);
+    let part = b.get(m.pb) as usize;
+    let rot = b.get(m.rb);
+    let isel = b.get(m.isb);
+    let ne = (m.ns * 2) as usize;
+    // endpoints: channel-major (all R, all G, all B, all A)
+    let mut ep = [[0u32; 4]; 6];
+    for c in 0..3 {
+        for e in 0..ne {
+            ep[e][c] = b.get(m.cb);
+        }
+    }
+    if m.ab > 0 {
+        for e in 0..ne {
+            ep[e][3] = b.get(m.ab);
+        }
+    }
+    // p-bits
+    let mut cbits = m.cb;
+    let mut abits = m.ab;
+    if m.epb > 0 {
+        for e in 0..ne {
+            let p = b.get(1);
+            for c in 0..4 {
+                ep[e][c] = (ep[e][c] << 1) | p;
+            }
+        }
+        cbits += 1;
+        if abits > 0 {
+            abits += 1;
+        }
+    } else if m.spb > 0 {
+        for s in 0..m.ns as usize {
+            let p = b.get(1);
+            for e in 0..2 {
+                for c in 0..4 {
+                    ep[2 * s + e][c] = (ep[2 * s + e][c] << 1) | p;
+                }
+            }
+        }
+        cbits += 1;
+        if abits > 0 {
+            abits += 1;
+        }
+    }
+    for e in 0..ne {
+        for c in 0..3 {
+            ep[e][c] = expand8(ep[e][c], cbits);
+        }
+        ep[e][3] = if m.ab > 0 { expand8(ep[e][3], abits) } else { 255 };
+    }
+    // indices
+    let mut i1 = [0u32; 16];
+    let mut i2 = [0u32; 16];
+    for px in 0..16 {
+        let n = if is_anchor(m.ns, part, px) { m.ib - 1 } else { m.ib };
+        i1[px] = b.get(n);
+    }
+    if m.ib2 > 0 {
+        for px in 0..16 {
+            let n = if px == 0 { m.ib2 - 1 } else { m.ib2 };
+            i2[px] = b.get(n);
+        }
+    }
+    debug_assert_eq!(b.pos, 128);
+    for px in 0..16 {
+        let s = subset_of(m.ns, part, px);
+        let e0 = ep[2 * s];
+        let e1 = ep[2 * s + 1];
+        let (cw, aw) = if m.ib2 == 0 {
+            let w = weights(m.ib)[i1[px] as usize];
+            (w, w)
+        } else if isel == 0 {
+            (weights(m.ib)[i1[px] as usize], weights(m.ib2)[i2[px] as usize])
+        } else {
+            (weights(m.ib2)[i2[px] as usize], weights(m.ib)[i1[px] as usize])
+        };
+        let mut p = [
+            interp7(e0[0], e1[0], cw),
+            interp7(e0[1], e1[1], cw),
+            interp7(e0[2], e1[2], cw),
+            interp7(e0[3], e1[3], aw),
+        ];
+        match rot {
+            1 => p.swap(3, 0),
+            2 => p.swap(3, 1),
+            3 => p.swap(3, 2),
+            _ => {}
+        }
+        for c in 0..4 {
+            out[px][c] = p[c] as u8;
+        }
+    }
+    out
+}
+
+// ---------------------------------------------------------------------------------------------
+// BC6H spec oracle
+// ---------------------------------------------------------------------------------------------
+
+/// One row of the spec's BC6H mode table. `header` lists the fields after the mode bits in stream
+/// order, in the spec's notation: channel letter (r,g,b) + endpoint letter (w,x,y,z = endpoints
+/// 0..3) + bit or bit range `hi:lo` (the stream's least significant bit goes to the right-hand
+/// number, so `rw10:11` is a reversed range); `d4:0` = partition.
+struct M6 {
+    name: &'static str,
+    code: u32,
+    code_bits: u32,
+    regions: u32,
+    transformed: bool,
+    prec: u32,
+    delta: [u32; 3],
+    header: &'static str,
+}
+const MODES6: [M6; 14] = [
+    M6 { name: "M10_555", code: 0b00, code_bits: 2, regions: 2, transformed: true, prec: 10, delta: [5, 5, 5],
+        header: "gy4 by4 bz4 rw9:0 gw9:0 bw9:0 rx4:0 gz4 gy3:0 gx4:0 bz0 gz3:0 bx4:0 bz1 by3:0 ry4:0 bz2 rz4:0 bz3 d4:0" },
+    M6 { name: "M7_666", code: 0b01, code_bits: 2, regions: 2, transformed: true, prec: 7, delta: [6, 6, 6],
+        header: "gy5 gz4 gz5 rw6:0 bz0 bz1 by4 gw6:0 by5 bz2 gy4 bw6:0 bz3 bz5 bz4 rx5:0 gy3:0 gx5:0 gz3:0 bx5:0 by3:0 ry5:0 rz5:0 d4:0" },
+    M6 { name: "M11_544", code: 0b00010, code_bits: 5, regions: 2, transformed: true, prec: 11, delta: [5, 4, 4],
+        header: "rw9:0 gw9:0 bw9:0 rx4:0 rw10 gy3:0 gx3:0 gw10 bz0 gz3:0 bx3:0 bw10 bz1 by3:0 ry4:0 bz2 rz4:0 bz3 d4:0" },
+    M6 { name: "M11_454", code: 0b00110, code_bits: 5, regions: 2, transformed: true, prec: 11, delta: [4, 5, 4],
+        header: "rw9:0 gw9:0 bw9:0 rx3:0 rw10 gz4 gy3:0 gx4:0 gw10 gz3:0 bx3:0 bw10 bz1 by3:0 ry3:0 bz0 bz2 rz3:0 gy4 bz3 d4:0" },
+    M6 { name: "M11_445", code: 0b01010, code_bits: 5, regions: 2, transformed: true, prec: 11, delta: [4, 4, 5],
+        header: "rw9:0 gw9:0 bw9:0 rx3:0 rw10 by4 gy3:0 gx3:0 gw10 bz0 gz3:0 bx4:0 bw10 by3:0 ry3:0 bz1 bz2 rz3:0 bz4 bz3 d4:0" },
+    M6 { name: "M9_555", code: 0b01110, code_bits: 5, regions: 2, transformed: true, prec: 9, delta: [5, 5, 5],
+        header: "rw8:0 by4 gw8:0 gy4 bw8:0 bz4 rx4:0 gz4 gy3:0 gx4:0 bz0 gz3:0 bx4:0 bz1 by3:0 ry4:0 bz2 rz4:0 bz3 d4:0" },
+    M6 { name: "M8_655", code: 0b10010, code_bits: 5, regions: 2, transformed: true, prec: 8, delta: [6, 5, 5],
+        header: "rw7:0 gz4 by4 gw7:0 bz2 gy4 bw7:0 bz3 bz4 rx5:0 gy3:0 gx4:0 bz0 gz3:0 bx4:0 bz1 by3:0 ry5:0 rz5:0 d4:0" },
+    M6 { name: "M8_565", code: 0b10110, code_bits: 5, regions: 2, transformed: true, prec: 8, delta: [5, 6, 5],
+        header: "rw7:0 bz0 by4 gw7:0 gy5 gy4 bw7:0 gz5 bz4 rx4:0 gz4 gy3:0 gx5:0 gz3:0 bx4:0 bz1 by3:0 ry4:0 bz2 rz4:0 bz3 d4:0" },
+    M6 { name: "M8_556", code: 0b11010, code_bits: 5, regions: 2, transformed: true, prec: 8, delta: [5, 5, 6],
+        header: "rw7:0 bz1 by4 gw7:0 by5 gy4 bw7:0 bz5 bz4 rx4:0 gz4 gy3:0 gx4:0 bz0 gz3:0 bx5:0 by3:0 ry4:0 bz2 rz4:0 bz3 d4:0" },
+    M6 { name: "M6_666", code: 0b11110, code_bits: 5, regions: 2, transformed: false, prec: 6, delta: [6, 6, 6],
+        header: "rw5:0 gz4 bz0 bz1 by4 gw5:0 gy5 by5 bz2 gy4 bw5:0 gz5 bz3 bz5 bz4 rx5:0 gy3:0 gx5:0 gz3:0 bx5:0 by3:0 ry5:0 rz5:0 d4:0" },
+    M6 { name: "M10_10", code: 0b00011, code_bits: 5, regions: 1, transformed: false, prec: 10, delta: [10, 10, 10],
+        header: "rw9:0 gw9:0 bw9:0 rx9:0 gx9:0 bx9:0" },
+    M6 { name: "M11_9", code: 0b00111, code_bits: 5, regions: 1, transformed: true, prec: 11, delta: [9, 9, 9],
+        header: "rw9:0 gw9:0 bw9:0 rx8:0 rw10 gx8:0 gw10 bx8:0 bw10" },
+    M6 { name: "M12_8", code: 0b01011, code_bits: 5, regions: 1, transformed: true, prec: 12, delta: [8, 8, 8],
+        header: "rw9:0 gw9:0 bw9:0 rx7:0 rw10:11 gx7:0 gw10:11 bx7:0 bw10:11" },
+    M6 { name: "M16_4", code: 0b01111, code_bits: 5, regions: 1, transformed: true, prec: 16, delta: [4, 4, 4],
+        header: "rw9:0 gw9:0 bw9:0 rx3:0 rw10:15 gx3:0 gw10:15 bx3:0 bw10:15" },
+];
+
+/// header entry: (channel 0..2 or 3 = partition, endpoint 0..3, left number, right number)
+#[derive(Clone, Copy, Debug, PartialEq)]
+struct HF {
+    ch: u8,
+    ep: u8,
+    left: u8,
+    right: u8,
+}
+fn parse_header(h: &str) -> Vec<HF> {
+    h.split_whitespace()
+        .map(|t| {
+            let b = t.as_bytes();
+            let (ch, ep, rest) = if b[0] == b'd' {
+                (3u8, 0u8, &t[1..])
+            } else {
+                let ch = match b[0] {
+                    b'r' => 0,
+                    b'g' => 1,
+                    _ => 2,
+                };
+                let ep = match b[1] {
+                    b'w' => 0,
+                    b'x' => 1,
+                    b'y' => 2,
+                    _ => 3,
+                };
+                (ch, ep, &t[2..])
+            };
+            let (l, r) = match rest.split_once(':') {
+                Some((l, r)) => (l.parse().unwrap(), r.parse().unwrap()),
+                None => {
+                    let k: u8 = rest.parse().unwrap();
+                    (k, k)
+                }
+            };
+            HF { ch, ep, left: l, right: r }
+        })
+        .collect()
+}
+fn headers6() -> &'static Vec<Vec<HF>> {
+    static H: OnceLock<Vec<Vec<HF>>> = OnceLock::new();
+    H.get_or_init(|| MODES6.iter().map(|m| parse_header(m.header)).collect())
+}
+/// field bit numbers of a header entry in stream order (first = least significant stream bit)
+fn hf_bits(f: HF) -> Vec<u8> {
+    if f.left >= f.right {
+        (f.right..=f.left).collect()
+    } else {
+        (f.left..=f.right).rev().collect()
+    }
+}
+
+fn mode6_of(block: u128) -> Option<usize> {
+    let low2 = (block & 3) as u32;
+    let code = if low2 < 2 { low2 } else { (block & 31) as u32 };
+    MODES6.iter().position(|m| m.code == code)
+}
+
+fn sext(v: i32, bits: u32) -> i32 {
+    let sh = 32 - bits;
+    (v << sh) >> sh
+}
+
+fn unquantize6(comp: i32, bits: u32, signed: bool) -> i32 {
+    if !signed {
+        if bits >= 15 {
+            comp
+        } else if comp == 0 {
+            0
+        } else if comp == (1 << bits) - 1 {
+            0xFFFF
+        } else {
+            ((comp << 16) + 0x8000) >> bits
+        }
+    } else if bits >= 16 {
+        comp
+    } else {
+        let (s, c) = if comp < 0 { (true, -comp) } else { (false, comp) };
+        let unq = if c == 0 {
+            0
+        } else if c >= (1 << (bits - 1)) - 1 {
+            0x7FFF
+        } else {
+            ((c << 15) + 0x4000) >> (bits - 1)
+        };
+        if s {
+            -unq
+        } else {
+            unq
+        }
+    }
+}
+fn finish_unquantize6(comp: i32, signed: bool) -> u16 {
+    if !signed {
+        ((comp * 31) >> 6) as u16
+    } else {
+        let c = if comp < 0 { -(((-comp) * 31) >> 5) } else { (comp * 31) >> 5 };
+        if c < 0 {
+            (0x8000 | (-c)) as u16
+        } else {
+            c as u16
+        }
+    }
+}
+
+/// spec decode of one BC6H block: 16 pixels RGB, half bit patterns
+fn bc6_spec(block: u128, signed: bool) -> [[u16; 3]; 16] {
+    let mut out = [[0u16; 3]; 16];
+    let mi = match mode6_of(block) {
+        Some(i) => i,
+        None => return out, // reserved mode: zero
+    };
+    let m = &MODES6[mi];
+    let hdr = &headers6()[mi];
+    let mut b = Bits::new(block);
+    b.get(m.code_bits);
+    let mut raw = [[0i32; 3]; 4];
+    let mut part = 0usize;
+    for &f in hdr {
+        for k in hf_bits(f) {
+            let bit = b.get(1);
+            if f.ch == 3 {
+                part |= (bit as usize) << k;
+            } else {
+                raw[f.ep as usize][f.ch as usize] |= (bit as i32) << k;
+            }
+        }
+    }
+    debug_assert_eq!(b.pos, if m.regions == 2 { 82 } else { 65 });
+    let ne = (m.regions * 2) as usize;
+    let mask = ((1i64 << m.prec) - 1) as i32;
+    let mut ep = [[0i32; 3]; 4];
+    for c in 0..3 {
+        let mut w = raw[0][c];
+        if signed {
+            w = sext(w, m.prec);
+        }
+        ep[0][c] = w;
+        for e in 1..ne {
+            let mut v = raw[e][c];
+            if m.transformed || signed {
+                v = sext(v, m.delta[c]);
+            }
+            if m.transformed {
+                v = w.wrapping_add(v) & mask;
+                if signed {
+                    v = sext(v, m.prec);
+                }
+            }
+            ep[e][c] = v;
+        }
+    }
+    // indices
+    let ib = if m.regions == 2 { 3 } else { 4 };
+    let mut idx = [0u32; 16];
+    for px in 0..16 {
+        let anchor = px == 0 || (m.regions == 2 && A2[part] as usize == px);
+        idx[px] = b.get(if anchor { ib - 1 } else { ib });
+    }
+    debug_assert_eq!(b.pos, 128);
+    for px in 0..16 {
+        let s = if m.regions == 2 { P2[part][px] as usize } else { 0 };
+        let w = weights(ib)[idx[px] as usize] as i32;
+        for c in 0..3 {
+            let a = unquantize6(ep[2 * s][c], m.prec, signed);
+            let bq = unquantize6(ep[2 * s + 1][c], m.prec, signed);
+            let v = (a * (64 - w) + bq * w + 32) >> 6;
+            out[px][c] = finish_unquantize6(v, signed);
+        }
+    }
+    out
+}
+
+// ---------------------------------------------------------------------------------------------
+// demanded output precisions
+// ---------------------------------------------------------------------------------------------
+
+fn half_to_f32_bits(h: u16) -> u32 {
+    let s = ((h as u32) >> 15) << 31;
+    let e = ((h as u32) >> 10) & 31;
+    let m = (h as u32) & 0x3ff;
+    if e == 0 {
+        if m == 0 {
+            return s;
+        }
+        // subnormal: m * 2^-24
+        let mut mm = m;
+        let mut ex: i32 = -14;
+        while mm & 0x400 == 0 {
+            mm <<= 1;
+            ex -= 1;
+        }
+        s | (((ex + 127) as u32) << 23) | ((mm & 0x3ff) << 13)
+    } else if e == 31 {
+        s | 0x7f80_0000 | (m << 13)
+    } else {
+        s | ((e + 112) << 23) | (m << 13)
+    }
+}
+/// clamp(half, 0, 1) * k rounded to nearest, exact integer arithmetic
+fn half_to_unorm(h: u16, k: u64) -> u64 {
+    let e = ((h as u32) >> 10) & 31;
+    let m = (h as u64) & 0x3ff;
+    if e == 31 && m != 0 {
+        return 0; // NaN
+    }
+    if h & 0x8000 != 0 {
+        return 0; // negative, -0, -inf
+    }
+    if e >= 15 {
+        return k; // >= 1, +inf
+    }
+    // value = mm / 2^sh, < 1
+    let (mm, sh) = if e == 0 { (m, 24u32) } else { (1024 + m, 25 - e) };
+    (2 * mm * k + (1u64 << sh)) >> (sh + 1)
+}
+fn unorm8_to_f32_bits(v: u8) -> u32 {
+    ((v as f64 / 255.0) as f32).to_bits()
+}
+
+// ---------------------------------------------------------------------------------------------
+// run: block lines
+// ---------------------------------------------------------------------------------------------
+
+#[derive(Clone, Copy, PartialEq)]
+enum Fmt {
+    B7,
+    B6U,
+    B6S,
+}
+impl Fmt {
+    fn tag(self) -> &'static str {
+        match self {
+            Fmt::B7 => "b7",
+            Fmt::B6U => "b6u",
+            Fmt::B6S => "b6s",
+        }
+    }
+    fn channels(self) -> usize {
+        if self == Fmt::B7 {
+            4
+        } else {
+            3
+        }
+    }
+}
+
+fn parse_hex(s: &str) -> Option<Vec<u8>> {
+    let b = s.as_bytes();
+    if b.len() % 2 != 0 {
+        return None;
+    }
+    let d = |c: u8| -> Option<u8> {
+        match c {
+            b'0'..=b'9' => Some(c - b'0'),
+            b'a'..=b'f' => Some(c - b'a' + 10),
+            _ => None,
+        }
+    };
+    let mut v = Vec::with_capacity(b.len() / 2);
+    for p in b.chunks(2) {
+        v.push(d(p[0])? * 16 + d(p[1])?);
+    }
+    Some(v)
+}
+fn to_hex(b: &[u8]) -> String {
+    const H: &[u8; 16] = b"0123456789abcdef";
+    let mut s = String::with_capacity(b.len() * 2);
+    for &x in b {
+        s.push(H[(x >> 4) as usize] as char);
+        s.push(H[(x & 15) as usize] as char);
+    }
+    s
+}
+
+fn fnv(h: &mut u32, byte: u8) {
+    *h ^= byte as u32;
+    *h = h.wrapping_mul(0x0100_0193);
+}
+
+/// decode the whole surface at one precision; Err(()) if the library returns an error
+fn lib_decode(data: &[u8], w: u32, h: u32, fmt: Fmt, prec: Precision) -> Result<Vec<u8>, ()> {
+    let c = fmt.channels();
+    let bytes = match prec {
+        Precision::U8 => 1,
+        Precision::U16 => 2,
+        Precision::F32 => 4,
+    };
+    let mut buf = vec![0u8; w as usize * h as usize * c * bytes];
+    let channels = if fmt == Fmt::B7 { Channels::Rgba } else { Channels::Rgb };
+    let format = match fmt {
+        Fmt::B7 => Format::BC7_UNORM,
+        Fmt::B6U => Format::BC6H_UF16,
+        Fmt::B6S => Format::BC6H_SF16,
+    };
+    let view = ImageViewMut::new(&mut buf, Size::new(w, h), ColorFormat::new(channels, prec)).ok_or(())?;
+    let mut reader: &[u8] = data;
+    match dds::decode(&mut reader, view, format, &DecodeOptions::default()) {
+        Ok(()) => Ok(buf),
+        Err(_) => Err(()),
+    }
+}
+
+fn run_blocks(fmt: Fmt, t: &[&str]) -> Option<(String, Vec<String>)> {
+    if t.len() != 3 {
+        return None;
+    }
+    let wb = p_usize(t[1])?;
+    let data = parse_hex(t[2])?;
+    if data.is_empty() || data.len() % 16 != 0 || wb == 0 {
+        return None;
+    }
+    let n = data.len() / 16;
+    if n % wb != 0 {
+        return None;
+    }
+    let hb = n / wb;
+    let (w, h) = (4 * wb, 4 * hb);
+    let c = fmt.channels();
+
+    let o8 = lib_decode(&data, w as u32, h as u32, fmt, Precision::U8);
+    let o16 = lib_decode(&data, w as u32, h as u32, fmt, Precision::U16);
+    let o32 = lib_decode(&data, w as u32, h as u32, fmt, Precision::F32);
+    let (o8, o16, o32) = match (o8, o16, o32) {
+        (Ok(a), Ok(b), Ok(c)) => (a, b, c),
+        _ => return Some(("err".to_string(), vec![])),
+    };
+
+    let mut res = String::with_capacity(3 + 9 * n);
+    res.push_str("ok");
+    let mut oracle = vec![];
+    let mut per_kind = [0usize; 3];
+    let mut v8 = vec![0u8; 16 * c];
+    let mut v16 = vec![0u16; 16 * c];
+    let mut v32 = vec![0u32; 16 * c];
+    for k in 0..n {
+        let (bx, by) = (k % wb, k / wb);
+        for j in 0..16 {
+            let (x, y) = (4 * bx + (j & 3), 4 * by + (j >> 2));
+            let p = (y * w + x) * c;
+            for ch in 0..c {
+                let i = p + ch;
+                v8[j * c + ch] = o8[i];
+                v16[j * c + ch] = u16::from_ne_bytes([o16[2 * i], o16[2 * i + 1]]);
+                v32[j * c + ch] =
+                    f32::from_ne_bytes([o32[4 * i], o32[4 * i + 1], o32[4 * i + 2], o32[4 * i + 3]]).to_bits();
+            }
+        }
+        let mut hsh = 0x811c_9dc5u32;
+        for &v in &v8 {
+            fnv(&mut hsh, v);
+        }
+        for &v in &v16 {
+            for b in v.to_le_bytes() {
+                fnv(&mut hsh, b);
+            }
+        }
+        for &v in &v32 {
+            for b in v.to_le_bytes() {
+                fnv(&mut hsh, b);
+            }
+        }
+        res.push_str(&format!(" {hsh:08x}"));
+
+        // oracle: per block at most one message per precision; per case at most 2 per precision, 5 total
+        if oracle.len() < 5 {
+            let blk = &data[16 * k..16 * k + 16];
+            let bits = u128::from_le_bytes(blk.try_into().unwrap());
+            let mut s8 = vec![0u8; 16 * c];
+            let mut s16 = vec![0u16; 16 * c];
+            let mut s32 = vec![0u32; 16 * c];
+            match fmt {
+                Fmt::B7 => {
+                    let px = bc7_spec(bits);
+                    for j in 0..16 {
+                        for ch in 0..4 {
+                            let v = px[j][ch];
+                            s8[j * 4 + ch] = v;
+                            s16[j * 4 + ch] = v as u16 * 257;
+                            s32[j * 4 + ch] = unorm8_to_f32_bits(v);
+                        }
+                    }
+                }
+                Fmt::B6U | Fmt::B6S => {
+                    let px = bc6_spec(bits, fmt == Fmt::B6S);
+                    for j in 0..16 {
+                        for ch in 0..3 {
+                            let hv = px[j][ch];
+                            s8[j * 3 + ch] = half_to_unorm(hv, 255) as u8;
+                            s16[j * 3 + ch] = half_to_unorm(hv, 65535) as u16;
+                            s32[j * 3 + ch] = half_to_f32_bits(hv);
+                        }
+                    }
+                }
+            }
+            let pre = format!("{} block {} {}", fmt.tag(), k, to_hex(blk));
+            for which in 0..3usize {
+                if per_kind[which] >= 2 || oracle.len() >= 5 {
+                    continue;
+                }
+                for i in 0..16 * c {
+                    let (j, ch) = (i / c, i % c);
+                    let m = match which {
+                        0 if v8[i] != s8[i] => {
+                            Some(format!("{pre} U8 pixel {j} ch {ch}: impl {} spec {}", v8[i], s8[i]))
+                        }
+                        1 if v16[i] != s16[i] => {
+                            Some(format!("{pre} U16 pixel {j} ch {ch}: impl {} spec {}", v16[i], s16[i]))
+                        }
+                        2 if v32[i] != s32[i] => Some(format!(
+                            "{pre} F32 pixel {j} ch {ch}: impl 0x{:08x} spec 0x{:08x}",
+                            v32[i], s32[i]
+                        )),
+                        _ => None,
+                    };
+                    if let Some(m) = m {
+                        oracle.push(m);
+                        per_kind[which] += 1;
+                        break;
+                    }
+                }
+            }
+        }
+    }
+    Some((res, oracle))
+}
+
+// ---------------------------------------------------------------------------------------------
+// run: table tie (library SOURCE TEXT vs the pinned spec tables above)
+// ---------------------------------------------------------------------------------------------
+
+struct Src {
+    bcn_data: String,
+    bc7: String,
+    bc6: String,
+}
+fn dds_src_dir() -> Option<String> {
+    let toml = std::fs::read_to_string(concat!(env!("CARGO_MANIFEST_DIR"), "/Cargo.toml")).ok()?;
+    for l in toml.lines() {
+        let l = l.trim();
+        if l.starts_with("dds") && l[3..].trim_start().starts_with('=') {
+            let i = l.find("path")?;
+            let rest = &l[i..];
+            let q1 = rest.find('"')?;
+            let q2 = rest[q1 + 1..].find('"')?;
+            return Some(rest[q1 + 1..q1 + 1 + q2].to_string());
+        }
+    }
     None
+}
+fn sources() -> &'static Src {
+    static S: OnceLock<Src> = OnceLock::new();
+    S.get_or_init(|| {
+        let dir = dds_src_dir().unwrap_or_default();
+        let rd = |p: &str| std::fs::read_to_string(format!("{dir}/{p}")).unwrap_or_default();
+        Src { bcn_data: rd("src/bcn_data.rs"), bc7: rd("src/decode/bc7.rs"), bc6: rd("src/decode/bc6.rs") }
+    })
+}
+
+/// the text between the `{`/`[` at or after `from` and its matching closer
+fn balanced(s: &str, from: usize, open: u8, close: u8) -> Option<&str> {
+    let b = s.as_bytes();
+    let start = from + s[from..].find(open as char)?;
+    let mut depth = 0usize;
+    for i in start..b.len() {
+        if b[i] == open {
+            depth += 1;
+        } else if b[i] == close {
+            depth -= 1;
+            if depth == 0 {
+                return Some(&s[start + 1..i]);
+            }
+        }
+    }
+    None
+}
+
+/// i-th `<func>(*b"...")` literal inside `<NAME>: [...; 64] = [ ... ];`
+fn subset_literal(src: &str, table: &str, func: &str, i: usize) -> Option<String> {
+    let at = src.find(&format!("{table}:"))?;
+    let eq = at + src[at..].find('=')?;
+    let body = balanced(src, eq, b'[', b']')?;
+    let pat = format!("{func}(*b\"");
+    let mut pos = 0usize;
+    let mut n = 0usize;
+    while let Some(p) = body[pos..].find(&pat) {
+        let s = pos + p + pat.len();
+        let e = s + body[s..].find('"')?;
+        if n == i {
+            return Some(body[s..e].to_string());
+        }
+        n += 1;
+        pos = e;
+    }
+    None
+}
+
+/// `const NAME: [..] = [a, b, c];` -> "a,b,c" (decimal)
+fn const_array(src: &str, name: &str) -> Option<String> {
+    let at = src.find(&format!("const {name}:"))?;
+    let eq = at + src[at..].find('=')?;
+    let body = balanced(src, eq, b'[', b']')?;
+    let mut v = vec![];
+    for e in body.split(',') {
+        let e = e.trim();
+        if e.is_empty() {
+            continue;
+        }
+        let x: u64 = e.parse().ok()?;
+        v.push(x.to_string());
+    }
+    Some(v.join(","))
+}
+
+/// consume! sequence of arm `ModeTwo::<name>` in fn extract_compressed_endpoints_two
+fn mode_two_fields(src: &str, name: &str) -> Option<String> {
+    let at = src.find("fn extract_compressed_endpoints_two")?;
+    let func = balanced(src, at, b'{', b'}')?;
+    let arm_pat = format!("ModeTwo::{name} =>");
+    let a = func.find(&arm_pat)?;
+    let arm = balanced(func, a + arm_pat.len(), b'{', b'}')?;
+    let mut toks = vec![];
+    let mut pos = 0usize;
+    while let Some(p) = arm[pos..].find("consume!(") {
+        let s = pos + p + "consume!(".len();
+        let e = s + arm[s..].find(')')?;
+        let args: Vec<String> =
+            arm[s..e].split(',').map(|a| a.chars().filter(|c| !c.is_whitespace()).collect()).collect();
+        if args.len() != 3 {
+            return None;
+        }
+        toks.push(format!("{}{}{}", args[0], args[1], args[2]));
+        pos = e;
+    }
+    if toks.is_empty() {
+        return None;
+    }
+    Some(toks.join(","))
+}
+
+/// expand `gy4,rw9..0,...` to per-bit (channel, endpoint, bit) in stream order
+fn expand_tokens(s: &str) -> Option<Vec<(u8, u8, u8)>> {
+    let mut v = vec![];
+    for t in s.split(',') {
+        let b = t.as_bytes();
+        if b.len() < 3 {
+            return None;
+        }
+        let (ch, ep) = (b[0], b[1]);
+        let rest = &t[2..];
+        let (l, r): (u8, u8) = match rest.split_once("..") {
+            Some((l, r)) => (l.parse().ok()?, r.parse().ok()?),
+            None => {
+                let k = rest.parse().ok()?;
+                (k, k)
+            }
+        };
+        for k in hf_bits(HF { ch: 0, ep: 0, left: l, right: r }) {
+            v.push((ch, ep, k));
+        }
+    }
+    Some(v)
+}
+/// spec header of a two-region mode in the tie's notation (without mode and partition bits)
+fn spec_mode_two(name: &str) -> Option<String> {
+    let mi = MODES6.iter().position(|m| m.name == name && m.regions == 2)?;
+    let mut toks = vec![];
+    for f in &headers6()[mi] {
+        if f.ch == 3 {
+            continue;
+        }
+        let ch = [b'r', b'g', b'b'][f.ch as usize] as char;
+        let ep = [b'w', b'x', b'y', b'z'][f.ep as usize] as char;
+        if f.left == f.right {
+            toks.push(format!("{ch}{ep}{}", f.left));
+        } else {
+            toks.push(format!("{ch}{ep}{}..{}", f.left, f.right));
+        }
+    }
+    Some(toks.join(","))
+}
+
+fn spec_p2(i: usize) -> String {
+    let mut s = String::new();
+    for px in 0..16 {
+        if px == A2[i] as usize {
+            s.push('-');
+        }
+        s.push((b'0' + P2[i][px]) as char);
+    }
+    s
+}
+fn spec_p3(i: usize) -> String {
+    let mut s = String::new();
+    for px in 0..16 {
+        if px == A3A[i] as usize || px == A3B[i] as usize {
+            s.push('-');
+        }
+        s.push((b'0' + P3[i][px]) as char);
+    }
+    s
+}
+
+fn run_tbl(t: &[&str]) -> Option<(String, Vec<String>)> {
+    if t.len() != 3 {
+        return None;
+    }
+    let src = sources();
+    let name = t[1];
+    let csv = |w: &[u32], mul: u32| w.iter().map(|x| (x * mul).to_string()).collect::<Vec<_>>().join(",");
+    let (found, expected, prefix): (Option<String>, String, &str) = match name {
+        "p2" | "p3" => {
+            let i = p_usize(t[2])?;
+            if i >= 64 {
+                return None;
+            }
+            if name == "p2" {
+                (subset_literal(&src.bcn_data, "PARTITION_SET_2", "subset2", i), spec_p2(i), "s")
+            } else {
+                (subset_literal(&src.bcn_data, "PARTITION_SET_3", "subset3", i), spec_p3(i), "s")
+            }
+        }
+        "w7_2" | "w7_3" | "w7_4" | "w6_3" | "w6_4" => {
+            if t[2] != "0" {
+                return None;
+            }
+            match name {
+                "w7_2" => (const_array(&src.bc7, "WEIGHTS_2"), csv(&W2, 4), "w"),
+                "w7_3" => (const_array(&src.bc7, "WEIGHTS_3"), csv(&W3, 4), "w"),
+                "w7_4" => (const_array(&src.bc7, "WEIGHTS_4"), csv(&W4, 4), "w"),
+                "w6_3" => (const_array(&src.bc6, "WEIGHT_3"), csv(&W3, 1), "w"),
+                _ => (const_array(&src.bc6, "WEIGHT_4"), csv(&W4, 1), "w"),
+            }
+        }
+        "m6" => {
+            let exp = spec_mode_two(t[2])?;
+            (mode_two_fields(&src.bc6, t[2]), exp, "m")
+        }
+        _ => return None,
+    };
+    let mut oracle = vec![];
+    let res = match &found {
+        None => {
+            oracle.push(format!("table {name} {}: found missing expected {expected}", t[2]));
+            "missing".to_string()
+        }
+        Some(f) => {
+            let same = if name == "m6" {
+                // same field bits in the same stream order (ranges may be split differently)
+                expand_tokens(f).is_some() && expand_tokens(f) == expand_tokens(&expected)
+            } else {
+                *f == expected
+            };
+            if !same {
+                oracle.push(format!("table {name} {}: found {f} expected {expected}", t[2]));
+            }
+            format!("{prefix} {f}")
+        }
+    };
+    Some((res, oracle))
+}
+
+pub fn run(line: &str) -> Option<(String, Vec<String>)> {
+    let t = toks(line);
+    match *t.first()? {
+        "b7" => run_blocks(Fmt::B7, &t),
+        "b6u" => run_blocks(Fmt::B6U, &t),
+        "b6s" => run_blocks(Fmt::B6S, &t),
+        "tbl" => run_tbl(&t),
+        _ => None,
+    }
+}
+
+// ---------------------------------------------------------------------------------------------
+// gen
+// ---------------------------------------------------------------------------------------------
+
+/// LSB-first field writer
+struct Wr {
+    v: u128,
+    pos: u32,
+}
+impl Wr {
+    fn new() -> Self {
+        Wr { v: 0, pos: 0 }
+    }
+    fn put(&mut self, val: u128, n: u32) {
+        if n == 0 {
+            return;
+        }
+        let mask = if n >= 128 { u128::MAX } else { (1u128 << n) - 1 };
+        self.v |= (val & mask) << self.pos;
+        self.pos += n;
+    }
+}
+#[derive(Clone, Copy, PartialEq)]
+enum Fill {
+    Zero,
+    One,
+    Rand,
+}
+fn rand128(rng: &mut Rng) -> u128 {
+    ((rng.next() as u128) << 64) | rng.next() as u128
+}
+fn fill_bits(f: Fill, n: u32, rng: &mut Rng) -> u128 {
+    let mask = if n >= 128 { u128::MAX } else { (1u128 << n) - 1 };
+    match f {
+        Fill::Zero => 0,
+        Fill::One => mask,
+        Fill::Rand => rand128(rng) & mask,
+    }
+}
+
+/// BC7 block of `mode` with selector fields `sel` (partition | rotation + 4*index selection),
+/// p-bit pattern `pbits`, endpoint bits / index bits filled as told
+fn bc7_build(mode: usize, sel: u32, pbits: u32, epf: Fill, ixf: Fill, rng: &mut Rng) -> u128 {
+    let m = MODES7[mode];
+    let mut w = Wr::new();
+    w.put(1u128 << mode, mode as u32 + 1);
+    w.put(sel as u128, m.pb);
+    w.put((sel & 3) as u128, m.rb);
+    w.put((sel >> 2) as u128, m.isb);
+    let ne = m.ns * 2;
+    let epbits = ne * m.cb * 3 + ne * m.ab;
+    let v = fill_bits(epf, epbits, rng);
+    w.put(v, epbits);
+    let npb = ne * m.epb + m.ns * m.spb;
+    w.put(pbits as u128, npb);
+    let rest = 128 - w.pos;
+    let v = fill_bits(ixf, rest, rng);
+    w.put(v, rest);
+    w.v
+}
+
+#[derive(Clone, Copy, PartialEq)]
+enum Ep6 {
+    Zeros,
+    Ones,
+    BaseOnesDeltaMaxPos,
+    BaseOnesDeltaMaxNeg,
+    BaseZeroDeltaMaxNeg,
+    BaseZeroDeltaMinusOne,
+    BaseMinDeltaZero,
+    BaseMinDeltaMaxNeg,
+    Rand,
+}
+const EP6_FIXED: [Ep6; 8] = [
+    Ep6::Zeros,
+    Ep6::Ones,
+    Ep6::BaseOnesDeltaMaxPos,
+    Ep6::BaseOnesDeltaMaxNeg,
+    Ep6::BaseZeroDeltaMaxNeg,
+    Ep6::BaseZeroDeltaMinusOne,
+    Ep6::BaseMinDeltaZero,
+    Ep6::BaseMinDeltaMaxNeg,
+];
+
+/// BC6H block: low 5 bits forced to `code`, bits 77..81 forced to `part`
+fn bc6_build(code: u32, part: u32, ep: Ep6, ixf: Fill, rng: &mut Rng) -> u128 {
+    let low2 = code & 3;
+    let mi = MODES6.iter().position(|m| m.code == if low2 < 2 { low2 } else { code });
+    let mut v = match mi {
+        None => match ep {
+            Ep6::Zeros => 0,
+            Ep6::Ones => u128::MAX,
+            _ => rand128(rng),
+        },
+        Some(mi) => {
+            let m = &MODES6[mi];
+            let mut raw = [[0u32; 3]; 4];
+            for c in 0..3 {
+                let bm = ((1u64 << m.prec) - 1) as u32;
+                let dm = (1u32 << m.delta[c]) - 1;
+                let (base, delta) = match ep {
+                    Ep6::Zeros => (0, 0),
+                    Ep6::Ones => (bm, dm),
+                    Ep6::BaseOnesDeltaMaxPos => (bm, dm >> 1),
+                    Ep6::BaseOnesDeltaMaxNeg => (bm, (dm >> 1) + 1),
+                    Ep6::BaseZeroDeltaMaxNeg => (0, (dm >> 1) + 1),
+                    Ep6::BaseZeroDeltaMinusOne => (0, dm),
+                    Ep6::BaseMinDeltaZero => ((bm >> 1) + 1, 0),
+                    Ep6::BaseMinDeltaMaxNeg => ((bm >> 1) + 1, (dm >> 1) + 1),
+                    Ep6::Rand => (0, 0),
+                };
+                raw[0][c] = base;
+                for e in 1..4 {
+                    raw[e][c] = delta;
+                }
+                if ep == Ep6::Rand {
+                    raw[0][c] = rng.next() as u32 & bm;
+                    for e in 1..4 {
+                        raw[e][c] = rng.next() as u32 & dm;
+                    }
+                }
+            }
+            let mut w = Wr::new();
+            w.put(m.code as u128, m.code_bits);
+            for &f in &headers6()[mi] {
+                for k in hf_bits(f) {
+                    let bit = if f.ch == 3 { (part >> k) & 1 } else { (raw[f.ep as usize][f.ch as usize] >> k) & 1 };
+                    w.put(bit as u128, 1);
+                }
+            }
+            let rest = 128 - w.pos;
+            let ix = fill_bits(ixf, rest, rng);
+            w.put(ix, rest);
+            w.v
+        }
+    };
+    v = (v & !(31u128 << 77)) | (((part & 31) as u128) << 77);
+    v = (v & !31u128) | (code & 31) as u128;
+    v
+}
+
+/// half-value sweep block: mode 01111, endpoint 0 = (r,g,b) direct 16 bit, all index bits 0
+fn bc6_sweep(r: u32, g: u32, b: u32, rng: &mut Rng) -> u128 {
+    let mi = MODES6.iter().position(|m| m.code == 0b01111).unwrap();
+    let m = &MODES6[mi];
+    let base = [r & 0xffff, g & 0xffff, b & 0xffff];
+    let delta = [rng.next() as u32 & 15, rng.next() as u32 & 15, rng.next() as u32 & 15];
+    let mut w = Wr::new();
+    w.put(m.code as u128, m.code_bits);
+    for &f in &headers6()[mi] {
+        for k in hf_bits(f) {
+            let src = if f.ep == 0 { base[f.ch as usize] } else { delta[f.ch as usize] };
+            w.put(((src >> k) & 1) as u128, 1);
+        }
+    }
+    w.v // index bits 65..127 stay 0
+}
+
+fn flush(out: &mut Vec<String>, tag: &str, blocks: &mut Vec<u128>) {
+    for chunk in blocks.chunks(64) {
+        let n = chunk.len();
+        let w = if n % 8 == 0 { 8 } else { n };
+        let mut bytes = Vec::with_capacity(16 * n);
+        for b in chunk {
+            bytes.extend_from_slice(&b.to_le_bytes());
+        }
+        out.push(format!("{tag} {w} {}", to_hex(&bytes)));
+    }
+    blocks.clear();
+}
+
+pub fn gen(seed: u64, thorough: bool) -> Vec<String> {
+    let mut rng = Rng::new(seed);
+    let mut out = vec![];
+    let mult: usize = if thorough { 20 } else { 1 };
+
+    // ---- table tie
+    for i in 0..64 {
+        out.push(format!("tbl p2 {i}"));
+    }
+    for i in 0..64 {
+        out.push(format!("tbl p3 {i}"));
+    }
+    for n in ["w7_2", "w7_3", "w7_4", "w6_3", "w6_4"] {
+        out.push(format!("tbl {n} 0"));
+    }
+    for m in MODES6.iter().filter(|m| m.regions == 2) {
+        out.push(format!("tbl m6 {}", m.name));
+    }
+
+    // ---- BC7 structured
+    let mut blocks: Vec<u128> = vec![];
+    let fixed7 = [
+        (Fill::Zero, Fill::Zero),
+        (Fill::One, Fill::One),
+        (Fill::Zero, Fill::One),
+        (Fill::One, Fill::Zero),
+    ];
+    for mode in 0..8usize {
+        let m = MODES7[mode];
+        let nsel = 1u32 << (m.pb + m.rb + m.isb);
+        let npb = m.ns * 2 * m.epb + m.ns * m.spb;
+        let combos = (nsel as usize) << npb;
+        // at least 4 random payloads per combination, and at least ~2048 blocks per mode
+        let nrand = (4 * mult).max(((2048 * mult + combos - 1) / combos).saturating_sub(4));
+        for sel in 0..nsel {
+            for pb in 0..(1u32 << npb) {
+                for &(e, i) in &fixed7 {
+                    blocks.push(bc7_build(mode, sel, pb, e, i, &mut rng));
+                }
+                for r in 0..nrand {
+                    // a few with one side pinned
+                    let (e, i) = match r % 8 {
+                        5 => (Fill::Rand, Fill::Zero),
+                        6 => (Fill::Rand, Fill::One),
+                        7 => (Fill::One, Fill::Rand),
+                        _ => (Fill::Rand, Fill::Rand),
+                    };
+                    blocks.push(bc7_build(mode, sel, pb, e, i, &mut rng));
+                }
+            }
+        }
+    }
+    // reserved "mode 8": low byte zero
+    blocks.push(0);
+    blocks.push(u128::MAX << 8);
+    for _ in 0..254 * mult {
+        blocks.push(rand128(&mut rng) << 8);
+    }
+    flush(&mut out, "b7", &mut blocks);
+
+    // ---- BC6H structured (both formats)
+    for tag in ["b6u", "b6s"] {
+        for code in 0..32u32 {
+            for part in 0..32u32 {
+                for &ep in &EP6_FIXED {
+                    for ixf in [Fill::Zero, Fill::One, Fill::Rand] {
+                        blocks.push(bc6_build(code, part, ep, ixf, &mut rng));
+                    }
+                }
+                for _ in 0..4 * mult {
+                    blocks.push(bc6_build(code, part, Ep6::Rand, Fill::Rand, &mut rng));
+                }
+            }
+        }
+        // exhaustive half sweep: every 16-bit endpoint value appears in some channel
+        for k in 0..21846u32 {
+            blocks.push(bc6_sweep(3 * k, 3 * k + 1, 3 * k + 2, &mut rng));
+        }
+        flush(&mut out, tag, &mut blocks);
+    }
+
+    // ---- PRNG
+    for tag in ["b7", "b6u", "b6s"] {
+        for _ in 0..4096 * mult {
+            blocks.push(rand128(&mut rng));
+        }
+        flush(&mut out, tag, &mut blocks);
+    }
+    out
 }
